@@ -9,8 +9,12 @@
    `image_wf img`: channel values are bytes and the shape is a window of the backing vector
    (C07's representation relation: any root / crop / transposed view); `nonempty img`:
    width and height are not zero.  `pix_bytes img` = the RGBA bytes of `img.iter()`.
-   `lockstep st s ops`: the terminal reads the bytes of every call of a history; before a call
-   that delivers an error response for id it has lost image id (`pre_store`). *)
+   `lockstep st s ops`: the terminal reads the bytes of every call of a history; every call comes
+   with a flag `lost`: if the call delivers an error response for id, the terminal has lost image
+   id before it (genuine error, lost = true) or still holds it (spurious error) (`pre_store`).
+   `Inv strict st s`: the invariant between handler and terminal; its last clause (every placement
+   names an image the handler counts as transmitted) is claimed for strict = true only, i.e. when
+   every error response was genuine. *)
 From Coq Require Import List Arith NArith Bool Lia.
 From SNT Require Import Surface.Shape Surface.ShapeProofs Image.Kitty Image.KittySpec
   Image.KittyParse Image.KittyProofs Image.KittyHistory Corr.C11Corr Image.KittyCheck
@@ -42,14 +46,14 @@ Theorem C11_payload : forall (img : image) (hash : N) (pos : N * N) (st : kitty)
      store_run s tx = store_add_image id (mkTimage (im_width img) (im_height img) (pix_bytes img)) s).
 Proof. exact payload_thm. Qed.
 
-(* the pixels of `pix_bytes` are the cells of the window in row-major order:
+(* `pix_bytes img` is by definition `flat_map rgba_bytes (im_pixels img)`; the pixels are the cells of
+   the window in row-major order:
    positions h w = (0,0), (0,1), ..., (0,w-1), (1,0), ... *)
 Theorem C11_row_major : forall img : image, image_wf img ->
-  pix_bytes img = flat_map rgba_bytes (im_pixels img) /\
   map Some (im_pixels img) =
   map (fun p => nth_error (im_data img) (offset (im_shape img) (fst p) (snd p)))
       (positions (sh_height (im_shape img)) (sh_width (im_shape img))).
-Proof. intros img H. split; [reflexivity|exact (pixels_row_major img H)]. Qed.
+Proof. exact pixels_row_major. Qed.
 
 (* an image without pixels: nothing at all is written (no transmission, no placement) *)
 Theorem C11_empty : forall (img : image) (hash : N) (pos : N * N) (st : kitty),
@@ -58,29 +62,54 @@ Proof. intros img hash pos st. apply draw_empty. Qed.
 
 (* every call writes a well-formed sequence of escape codes: the independent parser reads the
    bytes of any draw / erase / handle call back as the commands `step_items` *)
-Theorem C11_bytes_parse : forall (st : kitty) (s : tstore) (o : op),
+Theorem C11_bytes_parse : forall (st : kitty) (o : op),
   cache_wf st -> op_wf o ->
-  term_step st s o = store_run (pre_store o s) (step_items st o).
+  parse_stream (fst (fst (step st o))) = Some (step_items st o).
+Proof. exact step_bytes_parse. Qed.
+
+(* hence the terminal side of a call (term_step, which would record error 99 for unparsable bytes)
+   is the store run over those commands *)
+Theorem C11_term_step : forall (lost : bool) (st : kitty) (s : tstore) (o : op),
+  cache_wf st -> op_wf o ->
+  term_step lost st s o = store_run (pre_store lost o s) (step_items st o).
 Proof. exact term_step_items. Qed.
 
 (* ------------------------------------------------------------------------------------------ *)
-(* (once) For every history of draw / erase / handle calls on a new handler (quiet or not), with
+(* (once, between error responses) For every history of draw / erase / handle calls on a new handler (quiet or not), with
    the terminal reading every byte: the terminal never reports a protocol error -- in particular
    no placement of an image it does not hold (ENOENT), no bad chunk, no payload of the wrong
    size --, no chunked transmission is left open, every placement it holds names an image it
    holds, and (once_scan) a call transmits at most one image, and never an id whose pixels were
-   transmitted since the last error response naming that id.  Invariant over histories. *)
-Theorem C11_once : forall (quiet : bool) (ops : list op), Forall op_wf ops ->
+   transmitted since the last error response naming that id.  Invariant over histories.  The error
+   responses may be genuine or spurious in any mix (the flag paired with each call). *)
+Theorem C11_once_between_errors : forall (quiet : bool) (ops : list (op * bool)),
+  Forall (fun ol => op_wf (fst ol)) ops ->
   let trace := lockstep (kitty_new quiet) store0 ops in
   Forall (fun s' => t_errs s' = [] /\ t_pending s' = None /\ places_valid s') trace /\
-  once_scan [] (combine (map err_of ops) (map sent_ids trace)) = true.
-Proof. intros quiet ops H. exact (history_ok ops (kitty_new quiet) store0 (inv_init quiet) H). Qed.
+  once_scan [] (combine (map (fun ol => err_of (fst ol)) ops) (map sent_ids trace)) = true.
+Proof.
+  intros quiet ops H. apply (history_ok false ops (kitty_new quiet) store0 (inv_init false quiet)).
+  apply Forall_forall. intros ol Hin. rewrite Forall_forall in H. split; [exact (H ol Hin)|discriminate].
+Qed.
+
+(* the same with the hash argument of every call being the content hash of its image (Image/Fnv.v),
+   so that "id" above is a function of the content: equal contents share it (C11_same_content_same_id),
+   different contents differ in it outside the class id-collision.  NOT claimed: "at most once per
+   handler lifetime" -- after an error response naming the id the pixels are sent again, by design. *)
+Theorem C11_once_between_errors_by_content : forall (quiet : bool) (uops : list (uop * bool)),
+  Forall (fun ul => uop_wf (fst ul)) uops ->
+  let ops := map (fun ul => (with_hash (fst ul), snd ul)) uops in
+  let trace := lockstep (kitty_new quiet) store0 ops in
+  Forall (fun s' => t_errs s' = [] /\ t_pending s' = None /\ places_valid s') trace /\
+  once_scan [] (combine (map (fun ol => err_of (fst ol)) ops) (map sent_ids trace)) = true.
+Proof. exact history_ok_hashed. Qed.
 
 (* the invariant behind it: what the handler counts as transmitted is held by the terminal pixel
    for pixel, and every placement on the terminal names such an image *)
-Theorem C11_invariant : forall (st : kitty) (s : tstore) (o : op), Inv st s -> op_wf o ->
-  Inv (snd (step st o)) (term_step st s o).
-Proof. intros st s o HI Hw. exact (proj1 (step_ok st s o HI Hw)). Qed.
+Theorem C11_invariant : forall (strict lost : bool) (st : kitty) (s : tstore) (o : op),
+  (strict = true -> lost = true) -> Inv strict st s -> op_wf o ->
+  Inv strict (snd (step st o)) (term_step lost st s o).
+Proof. intros strict lost st s o Hsl HI Hw. exact (proj1 (step_ok strict lost st s o Hsl HI Hw)). Qed.
 
 (* ------------------------------------------------------------------------------------------ *)
 (* (pairing) identifiers fit the protocol's range 1..4294967295 (never 0 = "unspecified") *)
@@ -99,19 +128,31 @@ Proof.
   intros p1 p2 H1 H2. split; [apply placement_inverse, H1|apply placement_inj; assumption].
 Qed.
 
-(* draw(img, pos) creates exactly the placement (image_id, placement_id pos) on the terminal and
-   touches no other; erase(img, Some pos) removes exactly that placement; erase(img, None) removes
-   exactly the placements of the image *)
-Theorem C11_pairing_draw : forall (st : kitty) (s : tstore) (img : image) (hash : N) (pos : N * N),
-  Inv st s -> image_wf img -> nonempty img ->
-  places_of (term_step st s (OpDraw img hash pos)) =
+(* draw(img, pos) creates exactly the placement (image_id, placement_id pos) on the terminal; when
+   it had to transmit the pixels the terminal drops, with the old data, the old placements of that
+   id (there are none unless a spurious error response made the handler forget the image); it
+   touches no other placement.  erase(img, Some pos) removes exactly that placement; erase(img, None)
+   removes exactly the placements of the image *)
+Theorem C11_pairing_draw : forall (strict lost : bool) (st : kitty) (s : tstore) (img : image) (hash : N) (pos : N * N),
+  Inv strict st s -> image_wf img -> nonempty img ->
+  places_of (term_step lost st s (OpDraw img hash pos)) =
+  (image_id hash, placement_id pos)
+    :: filter (fun x => negb (pl_eqb x (image_id hash, placement_id pos)))
+         (if cached st hash then places_of s
+          else filter (fun x => negb (fst x =? image_id hash)) (places_of s)).
+Proof. exact draw_places_gen. Qed.
+
+(* with genuine error responses only, a draw touches nothing but its own placement *)
+Theorem C11_pairing_draw_strict : forall (lost : bool) (st : kitty) (s : tstore) (img : image) (hash : N) (pos : N * N),
+  Inv true st s -> image_wf img -> nonempty img ->
+  places_of (term_step lost st s (OpDraw img hash pos)) =
   (image_id hash, placement_id pos)
     :: filter (fun x => negb (pl_eqb x (image_id hash, placement_id pos))) (places_of s).
 Proof. exact draw_places. Qed.
 
-Theorem C11_pairing_erase : forall (st : kitty) (s : tstore) (img : image) (hash : N) (pos : option (N * N)),
-  Inv st s -> image_wf img ->
-  places_of (term_step st s (OpErase img hash pos)) =
+Theorem C11_pairing_erase : forall (strict lost : bool) (st : kitty) (s : tstore) (img : image) (hash : N) (pos : option (N * N)),
+  Inv strict st s -> image_wf img ->
+  places_of (term_step lost st s (OpErase img hash pos)) =
   match pos with
   | Some p => filter (fun x => negb (pl_eqb x (image_id hash, placement_id p))) (places_of s)
   | None => filter (fun x => negb (fst x =? image_id hash)) (places_of s)
@@ -120,9 +161,9 @@ Proof. exact erase_places. Qed.
 
 (* hence: erasing at pos removes what drawing at pos created, keeps every other placement, in
    particular those of the same image drawn at any other position *)
-Theorem C11_pairing : forall (st : kitty) (s : tstore) (img : image) (hash : N) (pos : N * N),
-  Inv st s -> image_wf img -> in_dom pos ->
-  let s' := term_step st s (OpErase img hash (Some pos)) in
+Theorem C11_pairing : forall (strict lost : bool) (st : kitty) (s : tstore) (img : image) (hash : N) (pos : N * N),
+  Inv strict st s -> image_wf img -> in_dom pos ->
+  let s' := term_step lost st s (OpErase img hash (Some pos)) in
   ~ In (image_id hash, placement_id pos) (places_of s') /\
   (forall x, In x (places_of s) -> x <> (image_id hash, placement_id pos) -> In x (places_of s')) /\
   (forall pos', in_dom pos' -> pos' <> pos ->
@@ -169,10 +210,12 @@ Proof. vm_compute. split; reflexivity. Qed.
    exactly when not transmitted since the last error response and then exactly the expected
    pixels with s, v, placements = old + {(id, pid)}, pid <> 0, (id, position) <-> pid functional
    and injective, erase removes exactly that placement, a re-transmitted image is re-placed where
-   draw had put it).  The model satisfies it on every case: any images (well formed, content
-   index <-> image id one-to-one, i.e. no hash collision), any history of draw / erase / handle
-   calls, positions with coordinates below 65536 other than the wrap-around corner. *)
-Theorem C11_model_meets_predicate :
+   draw had put it).  The model satisfies it on every case outside the two known classes: any
+   images (well formed, content index <-> image id one-to-one, i.e. no two contents of the case
+   collide in the 32-bit id: class id-collision, C11_id_collision_refuted), any history of draw /
+   erase / handle calls, positions with coordinates below 65536 other than the last one, which
+   shares its placement id (class pid-corner, C11_pairing_corner_refuted). *)
+Theorem C11_model_meets_predicate_outside_known_classes :
   forall (quiet : bool) (imgs : list c11_img) (contents : list content) (ops : list c11_op),
   (forall img h c, In (img, h, c) imgs -> image_wf img /\ nth_error contents c = Some (content_rec img)) ->
   (forall i1 h1 c1 i2 h2 c2, In (i1, h1, c1) imgs -> In (i2, h2, c2) imgs ->
@@ -180,6 +223,24 @@ Theorem C11_model_meets_predicate :
   Forall (op_ok imgs) ops ->
   c11_code (Case quiet imgs contents ops (c11_model (Case quiet imgs contents ops []))) = 0.
 Proof. exact model_meets_predicate. Qed.
+
+(* known finding (class id-collision): the image id is the 64-bit content hash reduced to 32 bits, so
+   two different contents can share an id.  Witness: two 1x1 images; after drawing the first, drawing
+   the second transmits nothing (one placement command only), i.e. the terminal shows the first one's
+   pixels for it, and the property predicate rejects the history (reason 106: two contents, one id). *)
+Definition col_a : image := mkImage [(1, 238, 32, 255)] (of_size 1 1).
+Definition col_b : image := mkImage [(20, 45, 240, 128)] (of_size 1 1).
+Theorem C11_id_collision_refuted :
+  pix_bytes col_a <> pix_bytes col_b /\
+  image_id (surface_hash col_a) = image_id (surface_hash col_b) /\
+  (let st := snd (draw (kitty_new false) col_a (surface_hash col_a) (1, 1)) in
+   parse_stream (fst (draw st col_b (surface_hash col_b) (2, 2))) =
+   Some [put_item (image_id (surface_hash col_a)) (placement_id (2, 2)) 0]) /\
+  (let imgs : list c11_img := [(col_a, surface_hash col_a, 0%nat); (col_b, surface_hash col_b, 1%nat)] in
+   let contents := [content_rec col_a; content_rec col_b] in
+   let ops := [CDraw 0 (1, 1); CDraw 1 (2, 2)] in
+   c11_code (Case false imgs contents ops (c11_model (Case false imgs contents ops []))) = 1106).
+Proof. vm_compute. repeat split; try reflexivity. discriminate. Qed.
 
 (* ------------------------------------------------------------------------------------------ *)
 Check C11_payload : forall (img : image) (hash : N) (pos : N * N) (st : kitty),
@@ -196,13 +257,14 @@ Check C11_payload : forall (img : image) (hash : N) (pos : N * N) (st : kitty),
   N.of_nat (length (pix_bytes img)) = im_width img * im_height img * 4 /\
   (forall s, t_pending s = None ->
      store_run s tx = store_add_image id (mkTimage (im_width img) (im_height img) (pix_bytes img)) s).
-Check C11_once : forall (quiet : bool) (ops : list op), Forall op_wf ops ->
+Check C11_once_between_errors : forall (quiet : bool) (ops : list (op * bool)),
+  Forall (fun ol => op_wf (fst ol)) ops ->
   let trace := lockstep (kitty_new quiet) store0 ops in
   Forall (fun s' => t_errs s' = [] /\ t_pending s' = None /\ places_valid s') trace /\
-  once_scan [] (combine (map err_of ops) (map sent_ids trace)) = true.
-Check C11_pairing : forall (st : kitty) (s : tstore) (img : image) (hash : N) (pos : N * N),
-  Inv st s -> image_wf img -> in_dom pos ->
-  let s' := term_step st s (OpErase img hash (Some pos)) in
+  once_scan [] (combine (map (fun ol => err_of (fst ol)) ops) (map sent_ids trace)) = true.
+Check C11_pairing : forall (strict lost : bool) (st : kitty) (s : tstore) (img : image) (hash : N) (pos : N * N),
+  Inv strict st s -> image_wf img -> in_dom pos ->
+  let s' := term_step lost st s (OpErase img hash (Some pos)) in
   ~ In (image_id hash, placement_id pos) (places_of s') /\
   (forall x, In x (places_of s) -> x <> (image_id hash, placement_id pos) -> In x (places_of s')) /\
   (forall pos', in_dom pos' -> pos' <> pos ->
@@ -210,7 +272,7 @@ Check C11_pairing : forall (st : kitty) (s : tstore) (img : image) (hash : N) (p
      In (image_id hash, placement_id pos') (places_of s) ->
      In (image_id hash, placement_id pos') (places_of s')).
 
-Check C11_model_meets_predicate :
+Check C11_model_meets_predicate_outside_known_classes :
   forall (quiet : bool) (imgs : list c11_img) (contents : list content) (ops : list c11_op),
   (forall img h c, In (img, h, c) imgs -> image_wf img /\ nth_error contents c = Some (content_rec img)) ->
   (forall i1 h1 c1 i2 h2 c2, In (i1, h1, c1) imgs -> In (i2, h2, c2) imgs ->
@@ -246,9 +308,20 @@ Example C11_payload_nonvacuous :
   option_map (@length N) (b64_decode (concat (tx_chunks ex_img))) = Some 24%nat.
 Proof. vm_compute. split; reflexivity. Qed.
 
+(* a 769-pixel image: 3076 bytes, 4104 base64 characters, two chunks of 4096 and 8 bytes, m = 1 then 0 *)
+Definition ex_two_chunks : image := mkImage (repeat (7, 8, 9, 10) 769) (of_size 769 1).
+Example C11_payload_two_chunks_nonvacuous :
+  map (@length N) (tx_chunks ex_two_chunks) = [4096; 8]%nat /\
+  map item_more (tx_items 5 0 ex_two_chunks) = [Some 1; Some 0] /\
+  option_map (@length N) (b64_decode (concat (tx_chunks ex_two_chunks))) = Some 3076%nat /\
+  option_map (@length item)
+    (parse_stream (fst (draw (kitty_new false) ex_two_chunks 4 (0, 0)))) = Some 3%nat.
+Proof. vm_compute. repeat split; reflexivity. Qed.
+
 (* a history: draw twice, error response, draw again -> transmitted, not, re-transmitted, not *)
 Example C11_once_nonvacuous :
-  let ops := [OpDraw ex_img ex_hash (0, 0); OpDraw ex_img ex_hash (5, 7);
+  let ops := map (fun o => (o, true))
+             [OpDraw ex_img ex_hash (0, 0); OpDraw ex_img ex_hash (5, 7);
               OpEvent (EvKitty 900477109 (Some 458758) true); OpDraw ex_view 77 (5, 7);
               OpErase ex_img ex_hash (Some (0, 0)); OpDraw ex_img ex_hash (1, 1)] in
   map sent_ids (lockstep (kitty_new true) store0 ops) = [[900477109]; []; [900477109]; [78]; []; []] /\
@@ -261,14 +334,26 @@ Example C11_once_nonvacuous :
      [(900477109, 65538); (78, 458758); (900477109, 458758)]].
 Proof. vm_compute. split; reflexivity. Qed.
 
-(* a case meeting the hypotheses of C11_model_meets_predicate: two images (one a strided view),
+(* spurious error responses (the terminal still holds image and placements): the handler sends the
+   pixels again, the terminal replaces the image and with it drops its older placements *)
+Example C11_spurious_errors_nonvacuous :
+  let ops := [(OpDraw ex_img ex_hash (0, 0), true); (OpDraw ex_img ex_hash (5, 7), true);
+              (OpEvent (EvKitty 900477109 (Some 458758) true), false);
+              (OpEvent (EvKitty 900477109 None true), false); (OpDraw ex_img ex_hash (1, 1), true)] in
+  map sent_ids (lockstep (kitty_new true) store0 ops) = [[900477109]; []; [900477109]; []; [900477109]] /\
+  map places_of (lockstep (kitty_new true) store0 ops) =
+    [[(900477109, 1)]; [(900477109, 458758); (900477109, 1)]; [(900477109, 458758)];
+     [(900477109, 458758)]; [(900477109, 65538)]].
+Proof. vm_compute. split; reflexivity. Qed.
+
+(* a case meeting the hypotheses of C11_model_meets_predicate_outside_known_classes: two images (one a strided view),
    draws, erases, an error response with and without placement, an OK response, another event *)
 Example C11_model_meets_predicate_nonvacuous :
   let imgs : list c11_img := [(ex_img, ex_hash, 0%nat); (ex_view, 77, 1%nat)] in
   let contents := [content_rec ex_img; content_rec ex_view] in
   let ops := [CDraw 0 (0, 0); CDraw 1 (0, 0); CDraw 0 (5, 7); CErase 0 (Some (0, 0));
-              CResp 900477109 (Some 458758) true; CResp 78 None true; CDraw 1 (65535, 65534);
-              CResp 78 None false; COther; CErase 1 None] in
+              CResp 900477109 (Some 458758) true true; CResp 78 None true false; CDraw 1 (65535, 65534);
+              CResp 78 None false true; COther; CErase 1 None] in
   (forall img h c, In (img, h, c) imgs -> image_wf img /\ nth_error contents c = Some (content_rec img)) /\
   (forall i1 h1 c1 i2 h2 c2, In (i1, h1, c1) imgs -> In (i2, h2, c2) imgs ->
      (c1 = c2 <-> image_id h1 = image_id h2)) /\
